@@ -187,7 +187,7 @@ func c19Str(t *rapid.T, label string) string {
 
 var c19Decl = &GenCfg{Depth: 2, Fanout: 2, MaxOpts: 3, MaxGroups: 2, NestGroups: 2, Kinds: []Kind{KString, KInt, KBool, KStringSlice, KMapSS, KBoolSlice, KFunc0, KFuncS, KFloat64, KIntPtr},
 	Pos: true, PosPct: 30, PosReq: true, Ns: true, EnvNs: true, Req: 15, Choices: true, Defaults: true, OptArg: true, Hidden: true, Desc: true, Env: true, Bases: true,
-	Aliases: true, SubOpt: 40, NonASCII: true, CmdPct: 60}
+	Aliases: true, SubOpt: 40, NonASCII: true, CmdPct: 60, NsDelims: []string{"-", "::", ""}}
 
 func genC19(t *rapid.T) *C19Case {
 	d := genDecl(t, c19Decl)
